@@ -193,7 +193,7 @@ class SpecGen:
             if default is None and r.random() < 0.2:
                 factory = ['const', 4]
                 factory = None   # default_factory takes no argument: catalogue callables are unary
-            skip = r.choice([None, None, None, 0, {'k': 'tuple', 'id': 0, 'items': [None, 0, '']}])
+            skip = r.choice([None, None, None, 0, {'k': 'tuple', 'id': 0, 'items': [None, 0, '']}, {'skipnone': 1}, '', {'fn': ['is_none']}])
             skip_exc = r.choice([None, None, None, ['ValueError', 'GlomError'], ['KeyError']])
             return ['Coalesce', alts, default, factory, skip, skip_exc]
         if f == 'call':
